@@ -1,4 +1,6 @@
 """C13 - numeric wire codecs."""
+import math
+
 from pyvc.api import contract
 
 ENC = 'cflib.utils.encoding'
@@ -12,3 +14,71 @@ def fp16(c):
     c.ensure('no-exception', 'raised is None')
     c.ensure('is-float', 'isinstance(result, float)')
     c.ensure('ieee-binary16-value', 'same_float(result, fp16_value(float16))')
+
+
+# ------------------------------------------------------------------------- (b) compressed trajectories
+TRJ = 'cflib.crazyflie.mem.trajectory_memory'
+DEG = 180.0 / math.pi          # math.degrees(x) is x * (180 / pi) with this double constant (CPython mathmodule.c)
+TRJ_CLAUSE = ('compressed-trajectory coordinates and yaw encode to millimetres and tenths of a degree with less than one unit '
+              'of error and overflow raises rather than wraps')
+
+
+def _traj_encode(name, meth, scaled, unit):
+    @contract('C13', 'traj.' + name, [TRJ + ':_CompressedBase.' + meth],
+              clause=TRJ_CLAUSE + ' (%s: every float; NaN and infinities raise)' % unit)
+    def k(c):
+        self = c.new(TRJ + ':CompressedStart', 0.0, 0.0, 0.0, 0.0)
+        c.float('x')
+        c.let('DEG', DEG)
+        c.call((self, meth), c.get('x'))
+        c.ensure('raises-iff-not-finite', 'iff(raised is None, not is_nan(%s) and not is_inf(%s))' % (scaled, scaled))
+        c.ensure('declared-errors-only', "raised in (None, 'ValueError', 'OverflowError')")
+        if c.get('raised') is None:
+            c.ensure('is-int', "typename(result) == 'int'")
+            c.ensure('same-sign-or-zero', 'implies(result > 0, x > 0) and implies(result < 0, x < 0)')
+
+    @contract('C13', 'traj.' + name + '.error', [TRJ + ':_CompressedBase.' + meth],
+              clause=TRJ_CLAUSE + ' (%s: less than one unit of error, across and far beyond the 16-bit range)' % unit,
+              bounded='|value| <= 1e6 (the 16-bit range ends at 32.768 m / 57.2 rad); the engine tracks int(float) exactly only below 2**62')
+    def k2(c):
+        self = c.new(TRJ + ':CompressedStart', 0.0, 0.0, 0.0, 0.0)
+        c.float('x')
+        c.let('DEG', DEG)
+        c.require('-1e6 <= x <= 1e6')
+        # (implied by the bound; stated in the syntactic form in which the engine's int(float) model tests it, so that
+        # the tracked-exactly case is selected without a solver call)
+        c.require('%s < 4611686018427387904.0 and %s > -4611686018427387904.0' % (scaled, scaled))
+        c.call((self, meth), c.get('x'))
+        c.ensure('no-exception', 'raised is None')
+        c.ensure('less-than-one-unit-of-error', 'abs(%s - result) < 1' % scaled)
+    return k, k2
+
+
+_traj_encode('encode_spatial', '_encode_spatial', 'x * 1000', 'millimetres')
+_traj_encode('encode_yaw', '_encode_yaw', 'x * DEG * 10', 'tenths of a degree')
+
+
+IN16 = '-32769 < %s < 32768'      # int() truncates toward zero: exactly the floats whose integer part fits a signed 16-bit field
+
+
+@contract('C13', 'traj.start.pack', [TRJ + ':CompressedStart.__init__', TRJ + ':CompressedStart.pack',
+                                     TRJ + ':_CompressedBase._encode_spatial', TRJ + ':_CompressedBase._encode_yaw'],
+          clause=TRJ_CLAUSE + ' (start point: four little-endian signed 16-bit fields x, y, z in mm and yaw in 0.1 deg)')
+def traj_start_pack(c):
+    names = ['x', 'y', 'z', 'yaw']
+    for n in names:
+        c.float(n)
+    c.let('DEG', DEG)
+    self = c.new(TRJ + ':CompressedStart', *[c.get(n) for n in names])
+    c.call((self, 'pack'))
+    scaled = ['x * 1000', 'y * 1000', 'z * 1000', 'yaw * DEG * 10']
+    c.ensure('raises-iff-a-value-does-not-fit-16-bits', 'iff(raised is None, %s)' % ' and '.join('(%s)' % (IN16 % e) for e in scaled))
+    c.ensure('declared-errors-only', "raised in (None, 'struct.error', 'ValueError', 'OverflowError')")
+    c.ensure('finite-overflow-raises-struct-error', "implies(raised is not None and %s, raised == 'struct.error')" % ' and '.join(
+        '(not is_nan(%s) and not is_inf(%s))' % (e, e) for e in scaled))
+    if c.get('raised') is None:
+        c.ensure('eight-bytes', "typename(result) == 'bytearray' and len(result) == 8")
+        c.snapshot('f', "unpack('<hhhh', bytes(result))")
+        for i, e in enumerate(scaled):
+            c.ensure('field-%s-less-than-one-unit-of-error' % names[i], 'abs(%s - f[%d]) < 1' % (e, i))
+            c.ensure('field-%s-same-sign-or-zero' % names[i], 'implies(f[%d] > 0, %s > 0) and implies(f[%d] < 0, %s < 0)' % (i, names[i], i, names[i]))
